@@ -669,3 +669,67 @@ func (m *mBlock) genRel(infoMode, maxTags, maxMem int, hasMem bool) mRel {
 	}
 	return r
 }
+
+// ---- damaged encodings used by C06
+
+// encodeMissingDense encodes the block with one mandatory dense column left out
+// (0 ids, 1 lat, 2 lon).
+func (m *mBlock) encodeMissingDense(which int) []byte {
+	var g pbw
+	wd := m.width
+	n := m.nodes[0]
+	if which != 0 {
+		g.packed(1, []uint64{zig(n.id)}, wd)
+	}
+	if which != 1 {
+		g.packed(8, []uint64{zig(n.lat)}, wd)
+	}
+	if which != 2 {
+		g.packed(9, []uint64{zig(n.lon)}, wd)
+	}
+	return m.wrapDense(g.b)
+}
+
+func (m *mBlock) wrapDense(dense []byte) []byte {
+	var grp pbw
+	grp.bytesField(2, dense)
+	var w pbw
+	var st pbw
+	for _, s := range m.st {
+		st.bytesField(1, []byte(s))
+	}
+	w.bytesField(1, st.b)
+	w.bytesField(2, grp.b)
+	return w.b
+}
+
+func (m *mBlock) encodeShortLat() []byte {
+	var g pbw
+	wd := m.width
+	g.packed(1, []uint64{zig(m.nodes[0].id), zig(m.nodes[1].id - m.nodes[0].id)}, wd)
+	vAssume(fits(zig(m.nodes[1].id-m.nodes[0].id), wd))
+	g.packed(8, []uint64{zig(m.nodes[0].lat)}, wd)
+	g.packed(9, []uint64{zig(m.nodes[0].lon), zig(m.nodes[1].lon - m.nodes[0].lon)}, wd)
+	vAssume(fits(zig(m.nodes[1].lon-m.nodes[0].lon), wd))
+	return m.wrapDense(g.b)
+}
+
+func (m *mBlock) encodeRelExtraRole() []byte {
+	x := &m.rels[0]
+	var r pbw
+	wd := m.width
+	r.varintField(1, uint64(x.id), wd)
+	r.packed(8, []uint64{uint64(x.members[0].role), uint64(x.members[0].role)}, 1)
+	r.packed(9, []uint64{zig(x.members[0].id), zig(0)}, wd)
+	r.packed(10, []uint64{uint64(x.members[0].typ)}, 1)
+	var g pbw
+	g.bytesField(4, r.b)
+	var w pbw
+	var st pbw
+	for _, s := range m.st {
+		st.bytesField(1, []byte(s))
+	}
+	w.bytesField(1, st.b)
+	w.bytesField(2, g.b)
+	return w.b
+}
